@@ -21,26 +21,30 @@ P_si    == <<115, 105>>                    \* "si"     -> too short / scheme
 P_sipsN == <<115, 105, 112, 115>>          \* "sips"   -> "sips" not followed by ':'
 P_sipSUB == <<115, 105, 112, 26>>          \* "sip\x1a": 0x1a | 0x20 = ':'  (accepted as sip: by the code)
 P_telSUB == <<116, 101, 108, 26>>          \* "tel\x1a"
-P_sipA  == <<115, 105, 112, 58, 97>>       \* "sip:a"   (port configurations)
-P_sipAB == <<115, 105, 112, 58, 97, 64, 98>> \* "sip:a@b"
+\* port configurations: host[:port] without and with a user, empty port and port "6553" so far
+P_hp    == <<115, 105, 112, 58, 97, 58>>                         \* "sip:a:"
+P_hp6   == <<115, 105, 112, 58, 97, 58, 54, 53, 53, 51>>         \* "sip:a:6553"
+P_uhp   == <<115, 105, 112, 58, 97, 64, 98, 58>>                 \* "sip:a@b:"
+P_uhp6  == <<115, 105, 112, 58, 97, 64, 98, 58, 54, 53, 53, 51>> \* "sip:a@b:6553"
 
 SchemesAll  == {P_sip, P_SIP, P_sIp, P_sips, P_SIPS, P_tel, P_TeL, P_sipx, P_si, P_sipsN}
 SchemesSip  == {P_sip}
 SchemesSips == {P_sips}
 SchemesTel  == {P_tel}
 SchemesSUB  == {P_sipSUB, P_telSUB}
-SchemesPort == {P_sipA, P_sipAB}
+SchemesPort == {P_hp, P_hp6, P_uhp, P_uhp6}
+SchemesAdj  == {P_sip, P_sips, P_tel}
+SchemesAdj2 == {P_sip, P_tel}
 
 \* atoms:  : @ ; ? & = [ ] . a 1
 AtomsURI   == {<<COLON>>, <<AT>>, <<SEMI>>, <<QM>>, <<AMP>>, <<EQ>>, <<LBRACK>>, <<RBRACK>>, <<DOT>>, <<97>>, <<49>>}
 \* the delimiters that drive the user/pass/port/param back-tracking, one letter, one digit
 AtomsCore  == {<<COLON>>, <<AT>>, <<SEMI>>, <<QM>>, <<LBRACK>>, <<RBRACK>>, <<97>>, <<49>>}
-\* ports around 65535: "6553" "5" "6" + the delimiters that start / end a port
-AtomsPort  == {<<COLON>>, <<AT>>, <<SEMI>>, <<54, 53, 53, 51>>, <<53>>, <<54>>}
+\* ports around 65535 (after "...:6553"): '5' '6' '0' + the delimiters that end a port / turn it into a password
+AtomsPort  == {<<COLON>>, <<AT>>, <<SEMI>>, <<QM>>, <<97>>, <<53>>, <<54>>, <<48>>}
 
 IsPrefix(p, t) == Len(p) <= Len(t) /\ SubSeq(t, 1, Len(p)) = p
-\* atoms appended so far = length beyond the longest scheme prefix (atoms are single bytes except in AtomsPort,
-\* where the bound is on bytes-beyond-the-prefix as well: a multi-byte atom counts for its length)
+\* atoms appended so far = length beyond the longest scheme prefix (atoms are single bytes)
 NBeyond(t) == Len(t) - MaxOf({Len(p) : p \in {q \in Schemes : IsPrefix(q, t)}})
 
 Init == txt \in Schemes
@@ -51,6 +55,8 @@ Spec == Init /\ [][Next]_txt
 EmitURI == EmitOn => PrintT(ToJson([fn |-> "ParseURI", args |-> [s |-> txt], res |-> URI_Res(txt)]))
 
 LosslessInv       == Lossless(txt, URI_Parse(txt))
+\* LosslessInv with the named exception KnownSubColon (see URIProps); used by MC_URI_sub.cfg only
+LosslessExceptKnownInv == KnownSubColon(txt) \/ LosslessInv
 LosslessStrictInv == LosslessStrict(txt, URI_Parse(txt))
 NoStrayAtInv      == NoStrayAt(txt, URI_Parse(txt))
 TelLosslessInv    == TelLossless(txt, URI_Parse(txt))
